@@ -436,6 +436,9 @@ pub fn plan(prop: &str, tier: &str) -> Option<Plan> {
             // thread 0 has to be interrupted three times, so only the driver's own points
             // (its three marks) are scheduling points here
             b.add("ebr/sections", &[0], &[&[("prog", 13), ("bag", 64), ("classes", 1 << sched::CLASS_DEREF)]], 3);
+            // a deferred function that works under a guard of its own while four other threads
+            // defer and advance: thread 0 has to be interrupted at each of its four marks
+            b.add("ebr/sections", &[0], &[&[("prog", 16), ("bag", 64), ("classes", 1 << sched::CLASS_DEREF)]], 4);
             // the advancer is re-pinned inside its own try_advance() (finding #10)
             b.add_sliced("ebr/sections", &[0], &[&[("prog", 9), ("bag", 2)]], if quick { 2 } else { 3 }, if quick { 8 } else { 32 });
             if !quick {
@@ -503,10 +506,11 @@ pub fn plan(prop: &str, tier: &str) -> Option<Plan> {
             }
             // concurrent programs: nobody but the thread itself (reactivate) may move the epoch
             // its live guards were pinned in, whatever the other participants do
-            for pr in [0i64, 2, 5, 6, 11, 14] {
+            for pr in [0i64, 2, 5, 6, 11, 14, 15] {
                 b.add("ebr/sections", &[0], &[&[("prog", pr), ("bag", 64)]], if quick { 2 } else { 3 });
             }
             b.goal("ebr/sections", "guard-kept-by-deferred-function");
+            b.goal("ebr/sections", "guard-inside-deferred-function-flushes");
             if !quick {
                 b.add_sliced("ebr/sections", &[0], &[&[("prog", 8), ("bag", 64)]], 2, 16);
                 b.add_sliced("ebr/sections", &[0], &[&[("prog", 1), ("bag", 2)]], 2, 16);
